@@ -13,10 +13,18 @@ B2  every complete design of the replayable profiles is emitted by TLC with the 
     clamp) and profiles designed with out_voa_auto models (an amplifier that optimises its own output VOA followed by
     further amplifiers): there the model's admissible designs differ only by the VOA, so gain - voa and dp - voa are
     compared and Closure on the next amplifier is TLC's.
+    The designed line lives on (DesignPower.tla: Use, DesignAgain): a share of the replayed lines is then USED AGAIN - a
+    what-if load 3 dB above the design load, then the design load, are propagated through the same elements; the settings
+    the network exports afterwards and the powers of this later propagation must still be the model's design (stage
+    "used") - and DESIGNED AGAIN for the same reference channel, before or after such use (stages "redesigned",
+    "used-then-redesigned"; operator settings from the configuration as loaded): the second design must be the model's too.
 B3  (primary) every OMS of every shipped network is designed in power mode and in gain mode under run-time recorders
     and judged by Trace_DesignPower on integer projections: Closure, the rule, the reduction, kept operator settings,
     p_max and the reproduction law at every amplifier and egress ROADM.  Three networks are also designed with placeholder
-    amplifiers and the library option out_voa_auto switched on for every model.
+    amplifiers and the library option out_voa_auto switched on for every model.  Some networks are used again (name~used)
+    and designed a second time (name~redesigned, also with automatic output VOAs in place) and judged by the same clauses.
+    The power sweep of transmission_simulation (Transmission.tla / harness.sweep), which designs the path's amplifiers
+    again at every step, also runs on a line whose amplifier models optimise their output VOA.
 """
 import inspect
 import json
@@ -228,7 +236,9 @@ def replay(behaviours, chk, traces, ctxs, dev, propagate, reuse=False, again=Tru
         except Exception as e:                                           # noqa  an exception on a valid OMS
             return dict(name=name + stage, cfg=cfg, oms=oms, att=att, k=0, fields=[f'EXC-{type(e).__name__}'],
                         exception=str(e), stage=stage)
-        tr2, cx2 = U.oms_traces(net, eq, ref, rec2, name, cfg['mode'] == 1, only=only, propagate=propagate and reuse)
+        # the design load is propagated through the second design where an automatic output VOA may be in place
+        tr2, cx2 = U.oms_traces(net, eq, ref, rec2, name, cfg['mode'] == 1, only=only,
+                                propagate=propagate and oms['rich'] == 1)
         if len(tr2) != 1 or len(tr2[0]['ev']) != len(exp):
             raise Machinery(f'{name}: the second design of the line shows {len(tr2[0]["ev"]) if tr2 else "no"} amplifiers')
         stages.append((stage, tr2[0], cx2[0]))
@@ -380,9 +390,9 @@ def multiband_line():
 
 
 # networks of the corpus whose designed elements are used again after the first propagation of the design load (amplifiers
-# designed at their maximum output: multiband, td_twohops, td_bugfixiterator, td_testTopology in gain mode) / that are
+# designed at their maximum output: multiband, td_twohops, td_bugfixiterator) / that are
 # designed a second time (with and without automatic output VOAs, placeholders and operator-set amplifiers)
-USED_AGAIN = {'meshV2', 'edfa_example', 'multiband', 'td_testTopology', 'td_twohops', 'td_bugfixiterator'}
+USED_AGAIN = {'meshV2', 'edfa_example', 'multiband', 'td_twohops', 'td_bugfixiterator'}
 DESIGNED_AGAIN = {'meshV2-autovoa', 'td_testTopology-autovoa', 'CORONET_CONUS-autovoa', 'edfa_example', 'td_twohops',
                   'fused_roadm', 'td_perdegree_auto'}
 
@@ -521,7 +531,7 @@ def run(chk):
             # finding (saturation test of an amplifier whose model and gain are in place ignores in_voa) to what the
             # first design had selected itself
             reuse = n_cases % (3 * pe) == 0
-            again = (n_cases % 3 == 1 or reuse or js['oms']['rich'] == 1) and not (
+            again = (n_cases % 6 == 1 or reuse or js['oms']['rich'] == 1) and not (
                 js['cfg']['mode'] == 0 and any(a['inVoa'] != 0 for a in js['oms']['amps']))
             m = replay(v, chk, b2_traces, b2_ctx, dev, propagate=(n_cases % pe == 0), reuse=reuse, again=again, life=life)
             if m is None:
@@ -614,6 +624,13 @@ def run(chk):
                'the ingress ROADM are designed and judged but not propagated')
     chk.assume('power sweep (B3|sweep): lines of 1-4 fibre spans between ROADMs, shipped library, no Raman, no VOA; the budget '
                'closes within 0.3 dB (noise accumulated on the line; worst measured 0.03 dB)')
+    chk.assume('life of the designed line: "used again" = a what-if load of the design comb with every carrier 3 dB above the '
+               'design load, then the design load, through the same elements (OMS holding a RamanFiber are not used again); '
+               'the designed settings after use are the ones the network exports (to_json; in gain mode the offset is the '
+               'design\'s own _delta_p); "designed again" = design_network on the designed graph for the same reference channel, '
+               'operator settings taken from the configuration as loaded; in gain mode a B2 line with an input VOA is not '
+               'designed again (the second design meets the known finding: the saturation test of an amplifier whose model '
+               'and gain are in place ignores in_voa) and the networks of the corpus are designed again in power mode only')
     chk.assume('B2 library: two fixed-gain models (no NF subtlety), Raman off, 10 channels at 0 dBm, padding 10 dB, '
                'EOL 0.5 dB, connectors 0.25 dB')
 
